@@ -186,7 +186,14 @@ func (m *MsgReplyNextTx) UnmarshalCBOR(data []byte) error {
 	}
 	// We know what the value will be, but it doesn't hurt to use the actual value from the message
 	m.MessageType = uint8(messageType64)
-	// The ReplyNextTx message has a variable number of arguments
+	// The ReplyNextTx message has a variable number of arguments: [6] or
+	// [6, [era, tx]]; anything longer is not a ReplyNextTx
+	if len(tmp) > 2 {
+		return fmt.Errorf(
+			"ReplyNextTx must have 1 or 2 elements, got %d",
+			len(tmp),
+		)
+	}
 	if len(tmp) > 1 {
 		txWrapper, ok := tmp[1].([]any)
 		if !ok {
@@ -195,9 +202,10 @@ func (m *MsgReplyNextTx) UnmarshalCBOR(data []byte) error {
 				tmp[1],
 			)
 		}
-		if len(txWrapper) < 2 {
-			return errors.New(
-				"transaction wrapper must have at least 2 elements",
+		if len(txWrapper) != 2 {
+			return fmt.Errorf(
+				"transaction wrapper must have 2 elements, got %d",
+				len(txWrapper),
 			)
 		}
 		eraId64, ok := txWrapper[0].(uint64)
